@@ -6,6 +6,22 @@ from . import cfg as C
 from .astdb import AnalysisBroken, where
 
 
+def terminates(st):
+    """The statement never falls through to the next one (return / abort on every path)."""
+    if st is None:
+        return False
+    k = st.get("k")
+    if k == "Return":
+        return True
+    if k == "Block":
+        if st.get("mac") in C.ABORT_MACROS:
+            return True
+        return bool(st.get("s")) and terminates(st["s"][-1])
+    if k == "If":
+        return terminates(st.get("th")) and terminates(st.get("el"))
+    return False
+
+
 def switch_arms(fn, sw=None):
     """{case value: [statements]} and the default arm for the (single) switch of fn."""
     if sw is None:
@@ -45,7 +61,8 @@ def switch_arms(fn, sw=None):
                 cur["closed"] = True
             else:
                 cur["stmts"].append(inner)
-                if k == "Return" or (k == "Block" and inner.get("mac") in C.ABORT_MACROS):
+                if terminates(inner) or (k == "Block" and not inner.get("mac") and inner.get("s") and
+                                         inner["s"][-1].get("k") == "Break"):
                     cur["closed"] = True
     return sw, arms, default
 
